@@ -1,7 +1,6 @@
 package c12
 
 import (
-	"bytes"
 	"context"
 	"encoding/json"
 	"fmt"
@@ -59,7 +58,7 @@ func genSteered(t *rapid.T) steerT {
 		if rapid.Bool().Draw(t, "big") {
 			m.Size = rapid.IntRange(int(c.Buf)-200, 6*int(c.Buf)).Draw(t, "size")
 		} else {
-			m.Size = rapid.IntRange(0, 2000).Draw(t, "size")
+			m.Size = rapid.IntRange(8, 2000).Draw(t, "size")
 		}
 		c.Msgs = append(c.Msgs, m)
 	}
@@ -196,7 +195,7 @@ func checkSteered(c steerT) (msg string, classes []string, err error) {
 		if d.err != nil {
 			return fmt.Sprintf("steered %s message %d (%d bytes) was not delivered: %v", c.Dir, i, len(d.want), d.err), classes, nil
 		}
-		if !bytes.Equal(d.got, d.want) {
+		if !sameMessage(d.got, d.want) {
 			return fmt.Sprintf("steered %s message %d: delivered message differs from the one sent (%d vs %d bytes, first difference at %d)", c.Dir, i, len(d.got), len(d.want), firstDiff(d.got, d.want)), classes, nil
 		}
 	}
